@@ -161,7 +161,7 @@ class ComponentCatalog:
                     isliver.set_labels(Labels(local_name=interface_name))
                 # if labels are lists, extract the length to make it the number of units
                 lab = isliver.get_labels()
-                units = len(lab.bdf) if lab is not None and lab.bdf is not None else 1
+                units = len(lab.bdf) if lab is not None and isinstance(lab.bdf, list) else 1
                 id_index = id_index + 1
                 # set port speed and units (inferring from length of bdf array)
                 # for SR-IOV bw==0 to indicate best-effort by default
